@@ -47,7 +47,7 @@ def run(c):
     n = 600 if c.tier == "quick" else 8000
     argv = [b, "-out", c.build, "-seed", str(c.seed), "-n", str(n), "-tier", c.tier]
     if c.replay:
-        argv += ["-replay", c.replay]
+        argv += ["-replay", os.path.abspath(c.replay)]
     rc, out = c.run(argv, timeout=3000)
     if rc != 0:
         c.break_("corr", "c05corr harness run failed", out)
